@@ -1,7 +1,7 @@
 import BfeVerif.Common.Proto
 import BfeVerif.C44.Nego
 /-!
-  Parsing and rendering of negotiation cases (sed copy of C41/Driver.lean; `run` renamed `runRch`).  One op = one (Config, Rule, ClientHello, session lookups) case, 23 space separated fields:
+  Parsing and rendering of negotiation cases (sed copy of the round-1 C41/Driver.lean — rch and hs streams only; `run` renamed `runRch`).  One op = one (Config, Rule, ClientHello, session lookups) case, 23 space separated fields:
 
   `rch <min> <max> <cs> <pri> <cfgflags> <np> <clientAuth> <curvePrefs> <cert> <ruleOn> <grade> <ruleflags> <ruleNp>
        <vers> <suites> <compression> <curves> <points> <alpn> <helloflags> <ticket> <sid>`
